@@ -73,6 +73,10 @@ type mStep struct {
 	// its message while the broadcast of that client message has reached only the children before it, i.e.
 	// after the session has taken the client message and before this child has seen it.  The session does
 	// its bookkeeping before it broadcasts, so the outcome is that of the two steps one after the other.
+	// Join (child steps followed by a child step of the same child and session, not Early): the child emits
+	// this message and the next step's one after the other with no sentinel in between; whatever comes out is
+	// recorded at the last step of such a run (the steps before it record nothing)
+	Join  bool `json:"join,omitempty"`
 	Early bool `json:"early,omitempty"`
 	// EarlyRan (observation): the child did emit before it took the client message
 	EarlyRan bool   `json:"early_ran,omitempty"`
@@ -293,8 +297,8 @@ func runMerge(c *mCase) {
 	skip := -1
 	for k := range c.Steps {
 		st := &c.Steps[k]
-		if k == skip {
-			continue // ran together with the client step before it
+		if k <= skip {
+			continue // ran together with the step before it
 		}
 		if st.S < 0 || st.S >= nsess {
 			c.Fail = "bad case: session index out of range"
@@ -306,11 +310,25 @@ func runMerge(c *mCase) {
 				c.Fail = "bad case: child index out of range"
 				return
 			}
-			if !tell(st.S, st.I, []mocrelay.ServerMsg{st.M.toServer(), sentinel}) {
+			// a run of joined steps is emitted in one go; its output is recorded at the last of them
+			last := k
+			msgs := []mocrelay.ServerMsg{st.M.toServer()}
+			for nsess == 1 && c.Steps[last].Join && !c.Steps[last].Early && last+1 < len(c.Steps) {
+				nx := &c.Steps[last+1]
+				if nx.K != "child" || nx.Early || nx.I != st.I || nx.S != st.S || nx.M == nil {
+					break
+				}
+				msgs = append(msgs, nx.M.toServer())
+				last++
+			}
+			if !tell(st.S, st.I, append(msgs, sentinel)) {
 				return
 			}
-			if !collect(st.S, st, sentinel) {
+			if !collect(st.S, &c.Steps[last], sentinel) {
 				return
+			}
+			if last > skip {
+				skip = last
 			}
 			continue
 		}
